@@ -203,6 +203,7 @@ package control
 //@   dyncalls noeffect
 //@   modifies *
 //@   at call rememberDnsKnowledge#1 assert a1 == baseKey && a2 == originalDeadline
+//@   at call Map).Store#1 assert newCache.RouteOwnerKey == cacheKey
 //@   at call prepackResponseBeforeStore#1 assert a1 == fqdn && a2 == dnsTyp
 
 // C08 (scope of a cached answer): the upstream scope names the resolver completely - for as-is routing
@@ -283,3 +284,76 @@ package control
 //@   modifies *
 //@   at call dialSend#1 assert a2 == invokingDepth + 1 && invokingDepth < MaxDnsLookupDepth
 //@   ensures invokingDepth >= MaxDnsLookupDepth ==> err != nil
+
+// ---------------------------------------------------------------------------------------------
+// C10: the kernel's address-to-domain table mirrors the live cache (anchored clauses).
+
+// When an owner leaves an address that other owners still list, the address's merged bitmap is recomputed
+// from the remaining owners; when it joins, from all owners including itself.
+//@ func (*domainRoutingTracker).applyOwnerSnapshotLocked
+//@   anchorsonly
+//@   dyncalls noeffect
+//@   modifies *
+//@   at call mergeDomainRoutingOwnerBitmaps#1 assert a0 == state.owners && len(state.owners) > 0 && !has(state.owners, ownerKey)
+//@   at call mergeDomainRoutingOwnerBitmaps#2 assert a0 == state.owners && has(state.owners, ownerKey)
+
+// Every refresh of a cache entry reaches the tracker - also one whose new answer lists no usable address
+// (that is how its old addresses are retracted) - under the entry's own owner key.
+//@ func (*controlPlaneCore).BatchUpdateDomainRouting
+//@   anchorsonly
+//@   dyncalls noeffect
+//@   modifies *
+//@   ghostfn snapOK() bool
+//@   ghostfn haveBpf() bool
+//@   at call buildDomainRoutingOwnerSnapshot#1 assume-after (nth(result, 1) == nil) == snapOK()
+//@   at call PeekBpf#1 assume-after (result != nil) == haveBpf()
+//@   at call syncOwner#1 assert a2 == cache.RouteOwnerKey
+//@   ensures c != nil && cache != nil && snapOK() && haveBpf() ==> calls("syncOwner") == 1
+
+//@ func (*controlPlaneCore).BatchRemoveDomainRouting
+//@   anchorsonly
+//@   dyncalls noeffect
+//@   modifies *
+//@   ghostfn haveBpf() bool
+//@   at call PeekBpf#1 assume-after (result != nil) == haveBpf()
+//@   at call syncOwner#1 assert a2 == cache.RouteOwnerKey && a3.ips == nil
+//@   ensures c != nil && cache != nil && haveBpf() ==> calls("syncOwner") == 1
+
+//@ func isZeroDomainRoutingBitmap
+//@   ensures result <==> (forall i int {bitmap.Bitmap[i]} :: 0 <= i && i < len(bitmap.Bitmap) ==> bitmap.Bitmap[i] == 0)
+//@   loop 1
+//@     invariant forall i int {bitmap.Bitmap[i]} :: 0 <= i && i < $idx ==> bitmap.Bitmap[i] == 0
+
+// word-wise OR: every word of dst becomes dst|src, nothing else changes
+//@ func orDomainRoutingBitmap
+//@   requires dst != nil
+//@   modifies dst.Bitmap
+//@   ensures forall i int {dst.Bitmap[i]} :: 0 <= i && i < len(dst.Bitmap) ==> dst.Bitmap[i] == (old(dst.Bitmap[i]) | src.Bitmap[i])
+//@   loop 1
+//@     invariant forall i int {dst.Bitmap[i]} :: 0 <= i && i < $idx ==> dst.Bitmap[i] == (old(dst.Bitmap[i]) | src.Bitmap[i])
+//@     invariant forall i int {dst.Bitmap[i]} :: $idx <= i && i < len(dst.Bitmap) ==> dst.Bitmap[i] == old(dst.Bitmap[i])
+
+// syncOwner: the batch entries are exactly what desiredBitmapForKeyLocked dictates for each affected
+// key, and the owner snapshot is applied exactly once on every successful return.
+//@ func (*domainRoutingTracker).syncOwner
+//@   anchorsonly
+//@   dyncalls noeffect
+//@   modifies *
+//@   at call desiredBitmapForKeyLocked#1 assert a0 == t && a2 == ownerKey && a3.ips == snapshot.ips && a3.bitmap == snapshot.bitmap
+//@   at call builtin:append#1 assert !present && current != nil && current == t.ips[key]
+//@   at call builtin:append#2 assert present && current == t.ips[key]
+//@   at call builtin:append#3 assert present
+//@   at call applyOwnerSnapshotLocked#1 assert a0 == t && a1 == ownerKey && a2.ips == snapshot.ips && a2.bitmap == snapshot.bitmap
+//@   ensures err == nil ==> calls("applyOwnerSnapshotLocked") == 1
+//@   ensures err != nil ==> calls("applyOwnerSnapshotLocked") == 0
+
+// an address is kept (present) exactly when another owner still lists it or the new snapshot lists it
+// with a non-zero bitmap; with neither, the caller deletes it from the kernel table
+//@ func (*domainRoutingTracker).desiredBitmapForKeyLocked
+//@   requires t != nil
+//@   let contributes() = len(snapshot.ips) > 0 && has(snapshot.ips, key) && !(forall i int {snapshot.bitmap.Bitmap[i]} :: 0 <= i && i < 32 ==> snapshot.bitmap.Bitmap[i] == 0)
+//@   ensures contributes() ==> present
+//@   ensures !contributes() && (!has(t.ips, key) || t.ips[key] == nil) ==> !present
+//@   ensures !contributes() && has(t.ips, key) && t.ips[key] != nil && len(t.ips[key].owners) == 1 && has(t.ips[key].owners, ownerKey) ==> !present
+//@   loop 1
+//@     invariant !contributes() && len(t.ips[key].owners) == 1 && has(t.ips[key].owners, ownerKey) ==> !present
